@@ -271,3 +271,626 @@ Proof.
   intros Hi Hs. apply should_invalidate_purges in Hi.
   split; apply target_not_served; try assumption; rewrite cacheable_are_get_head; cbn [In]; auto.
 Qed.
+
+(* ------------------------------------------------------------------ sameUrlHosts on well-formed URLs *)
+Definition no_byte (c : N) (l : bytes) : bool := forallb (fun x => negb (x =? c)) l.
+Definition SEP : bytes := [COLON; SLASH; SLASH].      (* "://" *)
+
+Lemma from_colon_skip (s r : bytes) : no_byte COLON s = true -> from_colon (s ++ COLON :: r) = Some (COLON :: r).
+Proof.
+  induction s as [|c s IH]; cbn [app from_colon no_byte forallb]; intros H.
+  - now rewrite N.eqb_refl.
+  - apply andb_true_iff in H as [H1 H2]. apply negb_true_iff in H1. rewrite H1. now apply IH.
+Qed.
+
+Lemma host_walk_spec (a1 a2 p1 p2 : bytes) :
+  no_byte SLASH a1 = true -> no_byte SLASH a2 = true ->
+  host_walk (a1 ++ SLASH :: p1) (a2 ++ SLASH :: p2) = list_eqb a1 a2.
+Proof.
+  revert a2; induction a1 as [|x a1 IH]; intros a2 H1 H2; cbn [app host_walk].
+  - rewrite N.eqb_refl. destruct a2 as [|y a2]; cbn [app hd0 list_eqb]; [now rewrite N.eqb_refl|].
+    cbn [no_byte forallb] in H2. apply andb_true_iff in H2 as [Hy _]. apply negb_true_iff in Hy. exact Hy.
+  - cbn [no_byte forallb] in H1. apply andb_true_iff in H1 as [Hx H1]. apply negb_true_iff in Hx. rewrite Hx.
+    destruct a2 as [|y a2]; cbn [app list_eqb].
+    + now rewrite Hx.
+    + cbn [no_byte forallb] in H2. apply andb_true_iff in H2 as [_ H2].
+      destruct (x =? y); cbn [andb]; [now apply IH| reflexivity].
+Qed.
+
+(* for scheme://authority/path URLs (no ':' in the schemes, no '/' in the authorities, first authority non-empty)
+   sameUrlHosts is byte equality of the authorities: schemes and paths are not looked at *)
+Lemma same_url_hosts_spec (s1 s2 a1 a2 p1 p2 : bytes) :
+  no_byte COLON s1 = true -> no_byte COLON s2 = true -> no_byte SLASH a1 = true -> no_byte SLASH a2 = true -> a1 <> [] ->
+  same_url_hosts (s1 ++ SEP ++ a1 ++ SLASH :: p1) (s2 ++ SEP ++ a2 ++ SLASH :: p2) = list_eqb a1 a2.
+Proof.
+  intros Hs1 Hs2 Ha1 Ha2 Hne. unfold same_url_hosts, SEP. cbn [app].
+  rewrite (from_colon_skip s1 _ Hs1), (from_colon_skip s2 _ Hs2).
+  cbn [skip_scheme_slashes]. rewrite !N.eqb_refl; cbn [andb].
+  destruct a1 as [|x a1]; [congruence|].
+  assert (Hx : (x =? SLASH) = false).
+  { cbn [no_byte forallb] in Ha1. apply andb_true_iff in Ha1 as [Hx _]. now apply negb_true_iff in Hx. }
+  assert (Hskip : skip_scheme_slashes ((x :: a1) ++ SLASH :: p1) (a2 ++ SLASH :: p2) = ((x :: a1) ++ SLASH :: p1, a2 ++ SLASH :: p2)).
+  { cbn [app skip_scheme_slashes]. destruct (a2 ++ SLASH :: p2); [reflexivity|]. now rewrite Hx. }
+  rewrite Hskip. cbn [app]. change (x :: a1 ++ SLASH :: p1) with ((x :: a1) ++ SLASH :: p1).
+  now apply host_walk_spec.
+Qed.
+
+(* ------------------------------------------------------------------ urlIsRelative *)
+(* bytes allowed in a scheme for the statements below: anything but ':' '/' '?' '#' *)
+Definition scheme_byte (c : N) : bool := negb ((c =? COLON) || (c =? SLASH) || (c =? 63) || (c =? 35)).
+
+Lemma first_segment_colon (s r : bytes) : forallb scheme_byte s = true -> first_segment_has_no_colon (s ++ COLON :: r) = false.
+Proof.
+  induction s as [|c s IH]; cbn [app first_segment_has_no_colon forallb]; intros H.
+  - reflexivity.
+  - apply andb_true_iff in H as [H1 H2]. unfold scheme_byte in H1. apply negb_true_iff in H1.
+    apply orb_false_iff in H1 as [H1 H35]. apply orb_false_iff in H1 as [H1 H63]. apply orb_false_iff in H1 as [Hc Hsl].
+    rewrite Hsl, H63, H35, Hc. cbn [orb]. now apply IH.
+Qed.
+
+Lemma absolute_url_not_relative (s r : bytes) : forallb scheme_byte s = true -> url_is_relative (s ++ COLON :: r) = false.
+Proof.
+  intros H. unfold url_is_relative. destruct s as [|c s]; cbn [app].
+  - reflexivity.
+  - pose proof H as H'. cbn [forallb] in H'. apply andb_true_iff in H' as [H1 _]. unfold scheme_byte in H1.
+    apply negb_true_iff in H1. apply orb_false_iff in H1 as [H1 _]. apply orb_false_iff in H1 as [H1 _].
+    apply orb_false_iff in H1 as [_ Hsl]. rewrite Hsl. exact (first_segment_colon (c :: s) r H).
+Qed.
+
+Lemma absolute_url_not_relative' (s r : bytes) : forallb scheme_byte s = true -> url_is_relative (s ++ SEP ++ r) = false.
+Proof. intros H. exact (absolute_url_not_relative s (SLASH :: SLASH :: r) H). Qed.
+
+Lemma scheme_byte_no_colon (s : bytes) : forallb scheme_byte s = true -> no_byte COLON s = true.
+Proof.
+  unfold no_byte. induction s as [|c s IH]; cbn [forallb]; [reflexivity|]. intros H.
+  apply andb_true_iff in H as [H1 H2]. rewrite (IH H2), andb_true_r.
+  unfold scheme_byte in H1. apply negb_true_iff in H1. apply orb_false_iff in H1 as [H1 _].
+  apply orb_false_iff in H1 as [H1 _]. apply orb_false_iff in H1 as [Hc _]. now rewrite Hc.
+Qed.
+
+(* ------------------------------------------------------------------ C strings *)
+Definition no_nul (l : bytes) : bool := no_byte 0 l.
+Lemma cstr_id (l : bytes) : no_nul l = true -> cstr l = l.
+Proof.
+  unfold no_nul, no_byte. induction l as [|c l IH]; cbn [cstr forallb]; [reflexivity|]. intros H.
+  apply andb_true_iff in H as [H1 H2]. apply negb_true_iff in H1. rewrite H1. now rewrite IH.
+Qed.
+Lemma no_byte_app (c : N) (a b : bytes) : no_byte c (a ++ b) = no_byte c a && no_byte c b.
+Proof. unfold no_byte. apply forallb_app. Qed.
+
+(* ------------------------------------------------------------------ headers *)
+(* (a) an absolute URL in Location / Content-Location whose authority is byte-identical to the request URL's *)
+Lemma header_absolute_same_authority (rq : request) (s1 s2 a p1 p2 : bytes) (m : N) :
+  forallb scheme_byte s1 = true -> forallb scheme_byte s2 = true -> no_byte SLASH a = true -> a <> [] ->
+  no_nul (s2 ++ SEP ++ a ++ SLASH :: p2) = true ->
+  In m (cacheable_ids pg_methods) ->
+  In (m, s2 ++ SEP ++ a ++ SLASH :: p2)
+     (purge_entries_by_header rq (s1 ++ SEP ++ a ++ SLASH :: p1) (Some (s2 ++ SEP ++ a ++ SLASH :: p2))).
+Proof.
+  intros Hs1 Hs2 Ha Hne Hnul Hm. unfold purge_entries_by_header. rewrite (cstr_id _ Hnul).
+  rewrite (absolute_url_not_relative' s2 _ Hs2).
+  rewrite same_url_hosts_spec; try assumption; try now apply scheme_byte_no_colon.
+  rewrite list_eqb_refl. cbn [negb]. now apply in_purge_by_url.
+Qed.
+
+(* (b) ... naming another authority: nothing is evicted on its account *)
+Lemma header_absolute_other_authority (rq : request) (s1 s2 a1 a2 p1 p2 : bytes) :
+  forallb scheme_byte s1 = true -> forallb scheme_byte s2 = true -> no_byte SLASH a1 = true -> no_byte SLASH a2 = true ->
+  a1 <> [] -> a1 <> a2 -> no_nul (s2 ++ SEP ++ a2 ++ SLASH :: p2) = true ->
+  purge_entries_by_header rq (s1 ++ SEP ++ a1 ++ SLASH :: p1) (Some (s2 ++ SEP ++ a2 ++ SLASH :: p2)) = [].
+Proof.
+  intros Hs1 Hs2 Ha1 Ha2 Hne Hdiff Hnul. unfold purge_entries_by_header. rewrite (cstr_id _ Hnul).
+  rewrite (absolute_url_not_relative' s2 _ Hs2).
+  rewrite same_url_hosts_spec; try assumption; try now apply scheme_byte_no_colon.
+  destruct (list_eqb a1 a2) eqn:E; [apply list_eqb_eq in E; congruence| reflexivity].
+Qed.
+
+Lemma header_absent (rq : request) (reqUrl : bytes) : purge_entries_by_header rq reqUrl None = [].
+Proof. reflexivity. Qed.
+
+(* ------------------------------------------------------------------ state after effectiveRequestUri() *)
+Lemma uri_absolute_idem (u : uri) : uri_absolute (snd (uri_absolute u)) = uri_absolute u.
+Proof.
+  destruct u as [fr hx urn p ca cp]. unfold uri_absolute; cbn [u_abs_cache].
+  destruct (nonempty ca) eqn:Ea; cbn [fst snd u_abs_cache]; [now rewrite Ea|].
+  unfold uri_absolute_path; cbn [u_abspath_cache u_front u_httpx u_urn u_path u_abs_cache].
+  destruct (nonempty cp) eqn:Ep; cbn [fst snd u_front u_abs_cache u_abspath_cache u_httpx u_urn u_path].
+  - destruct (nonempty (fr ++ cp)) eqn:Ev; cbn [fst snd]; [reflexivity|].
+    cbn [u_abspath_cache]. rewrite Ep. cbn [fst snd u_front u_httpx u_urn u_path u_abspath_cache].
+    apply nonempty_false in Ev. now rewrite Ev.
+  - set (v := uri_encode pg_PathChars (uri_path (mkUri fr hx urn p ca cp))).
+    destruct (nonempty (fr ++ v)) eqn:Ev; cbn [fst snd]; [reflexivity|].
+    cbn [u_abspath_cache]. apply nonempty_false in Ev.
+    destruct (nonempty v) eqn:Ev2; cbn [fst snd u_front u_httpx u_urn u_path u_abspath_cache].
+    + now rewrite Ev.
+    + assert (Hv : uri_encode pg_PathChars (if negb (nonempty p) && hx then pg_SlashPath else p) = v) by reflexivity.
+      unfold uri_path; cbn [u_path u_httpx]. rewrite Hv.
+      apply nonempty_false in Ev2. rewrite Ev2 in *. now rewrite Ev.
+Qed.
+
+Lemma eru_idem (rq : request) : effective_request_uri (snd (effective_request_uri rq)) = effective_request_uri rq.
+Proof.
+  unfold effective_request_uri.
+  destruct ((rq_method rq =? pg_METHOD_CONNECT) || rq_authority_form rq) eqn:E; cbn [fst snd]; [now rewrite E|].
+  destruct (uri_absolute (rq_url rq)) as [a u'] eqn:Eu; cbn [fst snd rq_method rq_authority_form rq_url rq_authority_port].
+  rewrite E. pose proof (uri_absolute_idem (rq_url rq)) as H. rewrite Eu in H; cbn [fst snd] in H. now rewrite H.
+Qed.
+
+Lemma evicted_by_location (rq : request) (rp : reply) (k : key) :
+  purges_others (rq_method rq) = true -> rp_status rp < STATUS_LIMIT ->
+  In k (purge_entries_by_header (snd (effective_request_uri rq)) (request_uri rq) (rp_location rp)) ->
+  In k (evicted_keys rq rp).
+Proof.
+  intros Hp Hs Hin. unfold evicted_keys. apply in_or_app; right. unfold maybe_purge_others.
+  rewrite eru_method, Hp; cbn [negb]. destruct (STATUS_LIMIT <=? rp_status rp) eqn:E; [apply N.leb_le in E; lia|].
+  rewrite eru_idem. unfold request_uri in Hin. destruct (effective_request_uri rq) as [u0 rq1]; cbn [fst snd] in *.
+  apply in_or_app; right. apply in_or_app; now left.
+Qed.
+
+Lemma evicted_by_content_location (rq : request) (rp : reply) (k : key) :
+  purges_others (rq_method rq) = true -> rp_status rp < STATUS_LIMIT ->
+  In k (purge_entries_by_header (snd (effective_request_uri rq)) (request_uri rq) (rp_content_location rp)) ->
+  In k (evicted_keys rq rp).
+Proof.
+  intros Hp Hs Hin. unfold evicted_keys. apply in_or_app; right. unfold maybe_purge_others.
+  rewrite eru_method, Hp; cbn [negb]. destruct (STATUS_LIMIT <=? rp_status rp) eqn:E; [apply N.leb_le in E; lia|].
+  rewrite eru_idem. unfold request_uri in Hin. destruct (effective_request_uri rq) as [u0 rq1]; cbn [fst snd] in *.
+  apply in_or_app; right. apply in_or_app; now right.
+Qed.
+
+(* ------------------------------------------------------------------ Encode *)
+Lemma uri_encode_id (ignore : cset) (l : bytes) : forallb ignore l = true -> uri_encode ignore l = l.
+Proof.
+  induction l as [|c l IH]; cbn [uri_encode forallb]; [reflexivity|]. intros H.
+  apply andb_true_iff in H as [H1 H2]. now rewrite H1, IH.
+Qed.
+
+Lemma tbl_get_beyond {A} (d : A) (t : list A) : forall c, lenN t <= c -> tbl_get d t c = d.
+Proof.
+  induction t as [|x t IH]; intros c H; cbn [tbl_get]; [reflexivity|].
+  cbn [lenN] in H. destruct (c =? 0) eqn:E; [apply N.eqb_eq in E; lia|]. apply IH. lia.
+Qed.
+
+Lemma encoded_no_nul (c : N) : no_nul (tbl_get [] pg_encoded_tbl c) = true.
+Proof.
+  destruct (N.ltb_spec c 256) as [Hc|Hc].
+  - revert c Hc. apply forallb_bytes. vm_compute. reflexivity.
+  - rewrite tbl_get_beyond; [reflexivity|]. replace (lenN pg_encoded_tbl) with 256 by (vm_compute; reflexivity). exact Hc.
+Qed.
+
+Lemma uri_encode_no_nul (l : bytes) : no_nul (uri_encode pg_PathChars l) = true.
+Proof.
+  induction l as [|c l IH]; cbn [uri_encode]; [reflexivity|].
+  destruct (pg_PathChars c) eqn:E.
+  - unfold no_nul, no_byte in *. cbn [forallb]. rewrite IH, andb_true_r.
+    destruct (c =? 0) eqn:E0; [|reflexivity]. apply N.eqb_eq in E0; subst c. vm_compute in E. discriminate.
+  - unfold no_nul in *. rewrite no_byte_app. fold (no_nul (tbl_get [] pg_encoded_tbl c)). now rewrite encoded_no_nul, IH.
+Qed.
+
+Lemma uri_encode_head_slash (l : bytes) : hd0 l = SLASH -> exists p, uri_encode pg_PathChars l = SLASH :: p.
+Proof.
+  destruct l as [|c l]; cbn [hd0]; [discriminate|]. intros ->. cbn [uri_encode].
+  replace (pg_PathChars SLASH) with true by (vm_compute; reflexivity). now eexists.
+Qed.
+
+(* ------------------------------------------------------------------ well-formed forward-proxy requests *)
+Record wf_request (rq : request) (s a : bytes) : Prop := {
+  wf_noform : rq_authority_form rq = false;
+  wf_nourn : u_urn (rq_url rq) = false;
+  wf_front : u_front (rq_url rq) = s ++ SEP ++ a;            (* absolute() starts scheme "://" authority *)
+  wf_scheme : forallb scheme_byte s = true;
+  wf_auth : no_byte SLASH a = true;
+  wf_auth_ne : a <> [];
+  wf_nul : no_nul (s ++ SEP ++ a) = true;
+  wf_path : hd0 (uri_path (rq_url rq)) = SLASH;              (* path() starts with "/" *)
+  wf_caches : caches_ok (rq_url rq)
+}.
+
+Lemma purging_method_not_connect (m : N) : purges_others m = true -> (m =? pg_METHOD_CONNECT) = false.
+Proof.
+  intros H. destruct (m =? pg_METHOD_CONNECT) eqn:E; [|reflexivity]. apply N.eqb_eq in E; subst m.
+  destruct safe_methods_do_not_purge as (_ & _ & Hc & _). congruence.
+Qed.
+
+Lemma wf_effective_uri (rq : request) (s a : bytes) :
+  wf_request rq s a -> (rq_method rq =? pg_METHOD_CONNECT) = false ->
+  exists p, fst (effective_request_uri rq) = s ++ SEP ++ a ++ SLASH :: p /\
+            request_uri rq = s ++ SEP ++ a ++ SLASH :: p /\
+            uri_encode pg_PathChars (uri_path (rq_url rq)) = SLASH :: p /\
+            u_abs_cache (rq_url (snd (effective_request_uri rq))) = s ++ SEP ++ a ++ SLASH :: p /\
+            u_urn (rq_url (snd (effective_request_uri rq))) = false /\
+            u_front (rq_url (snd (effective_request_uri rq))) = s ++ SEP ++ a.
+Proof.
+  intros W Hm. destruct (uri_encode_head_slash _ (wf_path _ _ _ W)) as [p Hp]. exists p.
+  destruct (uri_absolute_ok (rq_url rq) (wf_caches _ _ _ W)) as (H1 & H2 & H3 & H4 & H5 & H6 & H7).
+  assert (Htext : fst (effective_request_uri rq) = s ++ SEP ++ a ++ SLASH :: p).
+  { unfold effective_request_uri. rewrite Hm, (wf_noform _ _ _ W). cbn [orb].
+    destruct (uri_absolute (rq_url rq)) as [t u'] eqn:Eu; cbn [fst snd] in *.
+    rewrite H1. unfold uri_abs_text. rewrite Hp, (wf_front _ _ _ W). now rewrite <- !app_assoc. }
+  assert (Hnul : no_nul (s ++ SEP ++ a ++ SLASH :: p) = true).
+  { replace (s ++ SEP ++ a ++ SLASH :: p) with ((s ++ SEP ++ a) ++ SLASH :: p) by now rewrite <- !app_assoc.
+    unfold no_nul. rewrite no_byte_app. fold (no_nul (s ++ SEP ++ a)). rewrite (wf_nul _ _ _ W). cbn [andb].
+    rewrite <- Hp. apply uri_encode_no_nul. }
+  repeat split; try assumption.
+  - unfold request_uri. rewrite Htext. now apply cstr_id.
+  - unfold effective_request_uri in *. rewrite Hm, (wf_noform _ _ _ W) in *. cbn [orb] in *.
+    destruct (uri_absolute (rq_url rq)) as [t u'] eqn:Eu; cbn [fst snd rq_url] in *.
+    rewrite H7; [exact Htext|]. rewrite Htext. destruct s; discriminate.
+  - unfold effective_request_uri. rewrite Hm, (wf_noform _ _ _ W). cbn [orb].
+    destruct (uri_absolute (rq_url rq)) as [t u'] eqn:Eu; cbn [fst snd rq_url] in *. rewrite H6. exact (wf_nourn _ _ _ W).
+  - unfold effective_request_uri. rewrite Hm, (wf_noform _ _ _ W). cbn [orb].
+    destruct (uri_absolute (rq_url rq)) as [t u'] eqn:Eu; cbn [fst snd rq_url] in *. rewrite H3. exact (wf_front _ _ _ W).
+Qed.
+
+(* ------------------------------------------------------------------ decomposition of everything evicted *)
+Lemma purge_by_url_snd (url : bytes) (k : key) : In k (purge_entries_by_url url) -> snd k = url.
+Proof. unfold purge_entries_by_url. rewrite in_map_iff. intros (m & <- & _). reflexivity. Qed.
+
+Lemma evicted_keys_cases (rq : request) (rp : reply) (k : key) :
+  In k (evicted_keys rq rp) ->
+  snd k = request_uri rq \/
+  In k (purge_entries_by_header (snd (effective_request_uri rq)) (request_uri rq) (rp_location rp)) \/
+  In k (purge_entries_by_header (snd (effective_request_uri rq)) (request_uri rq) (rp_content_location rp)).
+Proof.
+  unfold evicted_keys. intros H. apply in_app_or in H as [H|H].
+  - left. unfold process_miss_purge in H. destruct (rq_method rq =? pg_METHOD_OTHER); [|destruct H].
+    now apply purge_by_url_snd in H.
+  - unfold maybe_purge_others in H. destruct (negb (purges_others (rq_method (snd (effective_request_uri rq))))); [destruct H|].
+    destruct (STATUS_LIMIT <=? rp_status rp); [destruct H|].
+    rewrite eru_idem in H. unfold request_uri. destruct (effective_request_uri rq) as [u0 rq1]; cbn [fst snd] in *.
+    apply in_app_or in H as [H|H]; [left; now apply purge_by_url_snd in H|].
+    apply in_app_or in H as [H|H]; [right; now left| right; now right].
+Qed.
+
+(* ------------------------------------------------------------------ (a) absolute URL, same authority *)
+Lemma location_same_authority_evicted (rq : request) (rp : reply) (s a s2 p2 : bytes) (m : N) :
+  wf_request rq s a -> purges_others (rq_method rq) = true -> rp_status rp < STATUS_LIMIT ->
+  forallb scheme_byte s2 = true -> no_nul (s2 ++ SEP ++ a ++ SLASH :: p2) = true ->
+  rp_location rp = Some (s2 ++ SEP ++ a ++ SLASH :: p2) \/ rp_content_location rp = Some (s2 ++ SEP ++ a ++ SLASH :: p2) ->
+  In m (cacheable_ids pg_methods) ->
+  In (m, s2 ++ SEP ++ a ++ SLASH :: p2) (evicted_keys rq rp).
+Proof.
+  intros W Hp Hs Hs2 Hnul Hhdr Hm.
+  destruct (wf_effective_uri rq s a W (purging_method_not_connect _ Hp)) as (p & _ & Hreq & _).
+  destruct Hhdr as [Hl|Hl]; [apply evicted_by_location| apply evicted_by_content_location]; try assumption;
+    rewrite Hl, Hreq; apply header_absolute_same_authority; try assumption;
+    try exact (wf_scheme _ _ _ W); try exact (wf_auth _ _ _ W); exact (wf_auth_ne _ _ _ W).
+Qed.
+
+(* ------------------------------------------------------------------ (b) absolute-path reference *)
+Lemma header_absolute_path (rq : request) (reqUrl p : bytes) (m : N) :
+  (rq_method rq =? pg_METHOD_CONNECT) = false -> u_urn (rq_url rq) = false -> no_nul (SLASH :: p) = true ->
+  In m (cacheable_ids pg_methods) ->
+  In (m, u_front (rq_url rq) ++ uri_encode pg_PathChars (SLASH :: p)) (purge_entries_by_header rq reqUrl (Some (SLASH :: p))).
+Proof.
+  intros Hm Hu Hnul Hin. unfold purge_entries_by_header. rewrite (cstr_id _ Hnul).
+  cbn [url_is_relative hd0]. rewrite N.eqb_refl, Hm, Hu.
+  unfold uri_set_path, uri_absolute, uri_absolute_path, uri_path; cbn.
+  now apply in_purge_by_url.
+Qed.
+
+Lemma location_absolute_path_evicted (rq : request) (rp : reply) (s a p : bytes) (m : N) :
+  wf_request rq s a -> purges_others (rq_method rq) = true -> rp_status rp < STATUS_LIMIT ->
+  no_nul (SLASH :: p) = true ->
+  rp_location rp = Some (SLASH :: p) \/ rp_content_location rp = Some (SLASH :: p) ->
+  In m (cacheable_ids pg_methods) ->
+  In (m, s ++ SEP ++ a ++ uri_encode pg_PathChars (SLASH :: p)) (evicted_keys rq rp).
+Proof.
+  intros W Hp Hs Hnul Hhdr Hm.
+  pose proof (purging_method_not_connect _ Hp) as Hnc.
+  destruct (wf_effective_uri rq s a W Hnc) as (p0 & _ & _ & _ & _ & Hurn & Hfront).
+  replace (s ++ SEP ++ a ++ uri_encode pg_PathChars (SLASH :: p))
+    with (u_front (rq_url (snd (effective_request_uri rq))) ++ uri_encode pg_PathChars (SLASH :: p))
+    by (rewrite Hfront; now rewrite <- !app_assoc).
+  destruct Hhdr as [Hl|Hl]; [apply evicted_by_location| apply evicted_by_content_location]; try assumption;
+    rewrite Hl; apply header_absolute_path; try assumption; now rewrite eru_method.
+Qed.
+
+(* ------------------------------------------------------------------ (c) relative-path reference: the stale absolute_ *)
+Lemma header_relative_path_stale (rq : request) (reqUrl h : bytes) :
+  (rq_method rq =? pg_METHOD_CONNECT) = false -> u_urn (rq_url rq) = false -> no_nul h = true ->
+  url_is_relative h = true -> (hd0 h =? SLASH) = false -> u_abs_cache (rq_url rq) <> [] ->
+  purge_entries_by_header rq reqUrl (Some h) = purge_entries_by_url (u_abs_cache (rq_url rq)).
+Proof.
+  intros Hm Hu Hnul Hrel Hsl Hc. unfold purge_entries_by_header. rewrite (cstr_id _ Hnul), Hrel, Hm, Hu, Hsl.
+  unfold uri_add_relative_path. rewrite Hu. unfold uri_absolute at 1; cbn [u_abs_cache].
+  destruct (u_abs_cache (rq_url rq)) eqn:E; [congruence|]. reflexivity.
+Qed.
+
+Lemma all_evicted_are_the_request_url (rq : request) (rp : reply) (s a : bytes) :
+  wf_request rq s a -> purges_others (rq_method rq) = true ->
+  (forall h, rp_location rp = Some h \/ rp_content_location rp = Some h ->
+     no_nul h = true /\ url_is_relative h = true /\ (hd0 h =? SLASH) = false) ->
+  forall k, In k (evicted_keys rq rp) -> snd k = request_uri rq.
+Proof.
+  intros W Hp Hh k Hk.
+  pose proof (purging_method_not_connect _ Hp) as Hnc.
+  destruct (wf_effective_uri rq s a W Hnc) as (p0 & Hfst & Hreq & _ & Hcache & Hurn & _).
+  assert (Hstale : forall h, rp_location rp = Some h \/ rp_content_location rp = Some h ->
+            forall k, In k (purge_entries_by_header (snd (effective_request_uri rq)) (request_uri rq) (Some h)) -> snd k = request_uri rq).
+  { intros h Hhh k0 Hk0. destruct (Hh h Hhh) as (Hnul & Hrel & Hsl).
+    rewrite header_relative_path_stale in Hk0; try assumption.
+    - apply purge_by_url_snd in Hk0. now rewrite Hk0, Hcache, Hreq.
+    - now rewrite eru_method.
+    - rewrite Hcache. destruct s; discriminate. }
+  apply evicted_keys_cases in Hk as [Hk|[Hk|Hk]]; [exact Hk| |].
+  - destruct (rp_location rp) as [h|] eqn:El; [|destruct Hk]. exact (Hstale h (or_introl eq_refl) k Hk).
+  - destruct (rp_content_location rp) as [h|] eqn:El; [|destruct Hk]. exact (Hstale h (or_intror eq_refl) k Hk).
+Qed.
+
+(* every relative-path reference leaves every other cached URL of the store in place: the named sibling included *)
+Lemma relative_path_reference_names_nothing (rq : request) (rp : reply) (s a t : bytes) (m : N) (st : store) :
+  wf_request rq s a -> purges_others (rq_method rq) = true ->
+  (forall h, rp_location rp = Some h \/ rp_content_location rp = Some h ->
+     no_nul h = true /\ url_is_relative h = true /\ (hd0 h =? SLASH) = false) ->
+  t <> request_uri rq ->
+  store_has (evict_all (evicted_keys rq rp) st) (m, t) = store_has st (m, t).
+Proof.
+  intros W Hp Hh Hne. apply not_evicted_stays. intros k' Hk'.
+  pose proof (all_evicted_are_the_request_url rq rp s a W Hp Hh k' Hk') as Hs.
+  destruct (key_eqb (m, t) k') eqn:E; [|reflexivity]. apply key_eqb_eq in E. subst k'. cbn [snd] in Hs. congruence.
+Qed.
+
+(* ------------------------------------------------------------------ (d) other authorities are left alone *)
+Lemma other_authority_untouched (rq : request) (rp : reply) (s a s2 a2 p2 t : bytes) (m : N) (st : store) :
+  wf_request rq s a -> purges_others (rq_method rq) = true ->
+  forallb scheme_byte s2 = true -> no_byte SLASH a2 = true -> a <> a2 -> no_nul (s2 ++ SEP ++ a2 ++ SLASH :: p2) = true ->
+  (forall h, rp_location rp = Some h \/ rp_content_location rp = Some h -> h = s2 ++ SEP ++ a2 ++ SLASH :: p2) ->
+  t <> request_uri rq ->
+  store_has (evict_all (evicted_keys rq rp) st) (m, t) = store_has st (m, t).
+Proof.
+  intros W Hp Hs2 Ha2 Hdiff Hnul Hh Hne. apply not_evicted_stays. intros k' Hk'.
+  pose proof (purging_method_not_connect _ Hp) as Hnc.
+  destruct (wf_effective_uri rq s a W Hnc) as (p0 & _ & Hreq & _).
+  assert (Hnone : forall h, rp_location rp = Some h \/ rp_content_location rp = Some h ->
+            purge_entries_by_header (snd (effective_request_uri rq)) (request_uri rq) (Some h) = []).
+  { intros h Hhh. rewrite (Hh h Hhh), Hreq. apply header_absolute_other_authority; try assumption.
+    - exact (wf_scheme _ _ _ W). - exact (wf_auth _ _ _ W). - exact (wf_auth_ne _ _ _ W). }
+  assert (Hs : snd k' = request_uri rq).
+  { apply evicted_keys_cases in Hk' as [Hk|[Hk|Hk]]; [exact Hk| |].
+    - destruct (rp_location rp) as [h|] eqn:El; [|destruct Hk]. rewrite (Hnone h (or_introl eq_refl)) in Hk. destruct Hk.
+    - destruct (rp_content_location rp) as [h|] eqn:El; [|destruct Hk]. rewrite (Hnone h (or_intror eq_refl)) in Hk. destruct Hk. }
+  destruct (key_eqb (m, t) k') eqn:E; [|reflexivity]. apply key_eqb_eq in E. subst k'. cbn [snd] in Hs. congruence.
+Qed.
+
+(* ------------------------------------------------------------------ RFC 3986 5.2.3 merge, as addRelativePath computes it *)
+Lemma upto_last_slash_spec (d seg : bytes) : no_byte SLASH seg = true -> upto_last_slash (d ++ SLASH :: seg) = Some (d ++ [SLASH]).
+Proof.
+  intros Hseg. assert (Hn : upto_last_slash seg = None).
+  { induction seg as [|c seg IH]; cbn [upto_last_slash]; [reflexivity|].
+    cbn [no_byte forallb] in Hseg. apply andb_true_iff in Hseg as [H1 H2]. apply negb_true_iff in H1.
+    unfold no_byte in IH. now rewrite (IH H2), H1. }
+  induction d as [|c d IH]; cbn [app upto_last_slash].
+  - now rewrite Hn, N.eqb_refl.
+  - now rewrite IH.
+Qed.
+
+Lemma add_relative_path_merges (u : uri) (d seg rel : bytes) :
+  u_urn u = false -> u_path u = d ++ SLASH :: seg -> no_byte SLASH seg = true ->
+  u_path (uri_add_relative_path rel u) = d ++ SLASH :: rel.
+Proof.
+  intros Hu Hp Hseg. unfold uri_add_relative_path. rewrite Hu, Hp, (upto_last_slash_spec d seg Hseg). cbn [u_path].
+  now rewrite <- app_assoc.
+Qed.
+
+Lemma add_relative_path_keeps_caches (u : uri) (rel : bytes) :
+  u_abs_cache (uri_add_relative_path rel u) = u_abs_cache u /\ u_abspath_cache (uri_add_relative_path rel u) = u_abspath_cache u.
+Proof. unfold uri_add_relative_path. destruct (u_urn u); split; reflexivity. Qed.
+
+(* ------------------------------------------------------------------ requests built by the correspondence glue are well-formed *)
+Lemma request_of_wf (relaxed : bool) (meth s a path : bytes) :
+  forallb scheme_byte s = true -> no_byte SLASH a = true -> a <> [] -> no_nul (s ++ SEP ++ a) = true -> hd0 path = SLASH ->
+  wf_request (request_of relaxed meth s a path) s a.
+Proof.
+  intros Hs Ha Hne Hnul Hp. destruct path as [|c path]; [discriminate|].
+  constructor; cbn; try assumption; try reflexivity.
+  split; now left.
+Qed.
+
+(* ------------------------------------------------------------------ SPEC: RFC 3986 section 5.2 reference resolution
+   (written independently of the model; URLs without query component) *)
+Definition lower (c : N) : N := if (65 <=? c) && (c <=? 90) then c + 32 else c.
+
+Fixpoint split_on (c : N) (l : bytes) : list bytes :=
+  match l with
+  | [] => [[]]
+  | x :: r => if x =? c then [] :: split_on c r
+              else match split_on c r with seg :: segs => (x :: seg) :: segs | [] => [[x]] end
+  end.
+Definition is_dot (s : bytes) : bool := list_eqb s [46].
+Definition is_dotdot (s : bytes) : bool := list_eqb s [46; 46].
+(* 5.2.4 remove_dot_segments on the segments of an absolute path; `out` is the output stack, last segment first *)
+Fixpoint rds (segs : list bytes) (out : list bytes) : list bytes :=
+  match segs with
+  | [] => rev out
+  | s :: r =>
+      match r with
+      | [] => if is_dot s then rev ([] :: out) else if is_dotdot s then rev ([] :: tl out) else rev (s :: out)
+      | _ => if is_dot s then rds r out else if is_dotdot s then rds r (tl out) else rds r (s :: out)
+      end
+  end.
+Definition join_path (segs : list bytes) : bytes := flat_map (fun s => SLASH :: s) segs.
+Definition remove_dot_segments (p : bytes) : bytes :=
+  match split_on SLASH p with _ :: segs => join_path (rds segs []) | [] => p end.
+
+Definition strip_fragment (l : bytes) : bytes := fst (span (fun c => negb (c =? 35)) l).
+Fixpoint scheme_split (l acc : bytes) : option (bytes * bytes) :=
+  match l with
+  | [] => None
+  | c :: r => if c =? COLON then Some (rev acc, r)
+              else if (c =? SLASH) || (c =? 63) || (c =? 35) then None else scheme_split r (c :: acc)
+  end.
+Definition split_authority (l : bytes) : bytes * bytes :=
+  let '(a, p) := span (fun c => negb (c =? SLASH)) l in (a, match p with [] => [SLASH] | _ => p end).
+(* 5.2.3 merge: the base path up to and including its last "/" *)
+Definition dir_of (p : bytes) : bytes := rev (snd (span (fun c => negb (c =? SLASH)) (rev p))).
+Definition merge_paths (bp r : bytes) : bytes := match dir_of bp with [] => SLASH :: r | d => d ++ r end.
+
+(* target (scheme, authority, path) of reference `ref` against the base scheme://authority path; scheme and host in
+   lower case (6.2.2.1), dot segments removed (6.2.2.3), fragment dropped *)
+(* "//" rest *)
+Definition starts2 (r : bytes) : option bytes :=
+  match r with
+  | c1 :: c2 :: r2 => if (c1 =? SLASH) && (c2 =? SLASH) then Some r2 else None
+  | _ => None
+  end.
+Definition rfc_resolve (bs ba bp ref : bytes) : option (bytes * bytes * bytes) :=
+  let r := strip_fragment ref in
+  match scheme_split r [] with
+  | Some (sc, rest) =>                                   (* a URI with a scheme: never merged with the base *)
+      match sc, starts2 rest with
+      | _ :: _, Some r2 => let '(a, p) := split_authority r2 in Some (map lower sc, map lower a, remove_dot_segments p)
+      | _, _ => None
+      end
+  | None =>
+      match starts2 r with
+      | Some r2 => let '(a, p) := split_authority r2 in Some (bs, map lower a, remove_dot_segments p)   (* network-path *)
+      | None =>
+          match r with
+          | [] => Some (bs, ba, bp)                                                (* same document *)
+          | c :: _ => if c =? SLASH then Some (bs, ba, remove_dot_segments r)      (* absolute-path *)
+                      else Some (bs, ba, remove_dot_segments (merge_paths bp r))   (* relative-path *)
+          end
+      end
+  end.
+
+(* `ref`, found in a response to a request for bs://ba bp, names the same-authority URL t *)
+Definition names_same_authority (bs ba bp ref t : bytes) : Prop :=
+  exists tp, rfc_resolve bs ba bp ref = Some (bs, ba, tp) /\ t = bs ++ SEP ++ ba ++ tp.
+
+(* the second sentence of the property at full strength *)
+Definition named_url_always_evicted : Prop :=
+  forall rq rp s a ref t m,
+    wf_request rq s a -> purges_others (rq_method rq) = true -> rp_status rp < 400 ->
+    rp_location rp = Some ref \/ rp_content_location rp = Some ref ->
+    names_same_authority s a (uri_path (rq_url rq)) ref t -> In m (cacheable_ids pg_methods) ->
+    In (m, t) (evicted_keys rq rp).
+
+(* witnesses: POST http://h:8/d/u answered 200 with Location: <ref>, while http://h:8/d/v is cached *)
+Definition B (l : bytes) : bytes := l.
+Definition w_http : bytes := B [104;116;116;112].
+Definition w_auth : bytes := B [104;58;56].                                      (* h:8 *)
+Definition w_u : bytes := B [47;100;47;117].                                    (* /d/u *)
+Definition w_target : bytes := w_http ++ SEP ++ w_auth ++ B [47;100;47;118].   (* http://h:8/d/v *)
+Definition w_rq : request := request_of true (B [80;79;83;84]) w_http w_auth w_u.
+Definition w_rp (ref : bytes) : reply := mkRep 200 (Some ref) None.
+Definition stays_cached (ref : bytes) : Prop :=
+  names_same_authority w_http w_auth w_u ref w_target /\
+  store_has (evict_all (evicted_keys w_rq (w_rp ref)) [(pg_METHOD_GET, w_target)]) (pg_METHOD_GET, w_target) = true.
+
+Lemma w_rq_wf : wf_request w_rq w_http w_auth.
+Proof. apply request_of_wf; try reflexivity. discriminate. Qed.
+Lemma w_rq_purges : purges_others (rq_method w_rq) = true.
+Proof. vm_compute. reflexivity. Qed.
+
+Ltac witness := split; [eexists; split; vm_compute; reflexivity | vm_compute; reflexivity].
+
+Lemma relative_path_reference_stays : stays_cached (B [118]).                                   (* v *)
+Proof. witness. Qed.
+Lemma dot_segments_stay :
+  stays_cached (B [47;100;47;46;47;118]) /\ stays_cached (B [47;100;47;120;47;46;46;47;118]) /\  (* /d/./v  /d/x/../v *)
+  stays_cached (B [46;47;118]) /\ stays_cached (B [46;46;47;100;47;118]).                        (* ./v  ../d/v *)
+Proof. repeat split; try (eexists; split; vm_compute; reflexivity); vm_compute; reflexivity. Qed.
+Lemma network_path_reference_stays : stays_cached (B [47;47;104;58;56;47;100;47;118]).          (* //h:8/d/v *)
+Proof. witness. Qed.
+Lemma letter_case_stays :
+  stays_cached (B [72;84;84;80;58;47;47;104;58;56;47;100;47;118]) /\                             (* HTTP://h:8/d/v *)
+  stays_cached (B [104;116;116;112;58;47;47;72;58;56;47;100;47;118]).                            (* http://H:8/d/v *)
+Proof. repeat split; try (eexists; split; vm_compute; reflexivity); vm_compute; reflexivity. Qed.
+Lemma fragment_stays :
+  stays_cached (B [104;116;116;112;58;47;47;104;58;56;47;100;47;118;35;102]) /\                  (* http://h:8/d/v#f *)
+  stays_cached (B [47;100;47;118;35;102]).                                                       (* /d/v#f *)
+Proof. repeat split; try (eexists; split; vm_compute; reflexivity); vm_compute; reflexivity. Qed.
+
+Lemma named_url_always_evicted_is_false : ~ named_url_always_evicted.
+Proof.
+  intros H. destruct relative_path_reference_stays as [Hn Hs].
+  specialize (H w_rq (w_rp (B [118])) w_http w_auth (B [118]) w_target pg_METHOD_GET w_rq_wf w_rq_purges
+                ltac:(vm_compute; reflexivity) (or_introl eq_refl) Hn ltac:(vm_compute; auto)).
+  pose proof (evicted_not_in_store _ [(pg_METHOD_GET, w_target)] _ H) as Hc. rewrite Hs in Hc. discriminate.
+Qed.
+
+(* sanity of the spec on plain references: they resolve to the URL one expects *)
+Lemma spec_examples :
+  names_same_authority w_http w_auth w_u (B [47;100;47;118]) w_target /\                                     (* /d/v *)
+  names_same_authority w_http w_auth w_u (B [104;116;116;112;58;47;47;104;58;56;47;100;47;118]) w_target /\  (* http://h:8/d/v *)
+  names_same_authority w_http w_auth w_u [] (w_http ++ SEP ++ w_auth ++ w_u) /\
+  rfc_resolve w_http w_auth w_u (B [104;116;116;112;58;47;47;111;58;56;47;100;47;118])                       (* http://o:8/d/v *)
+    = Some (w_http, B [111;58;56], B [47;100;47;118]).
+Proof. repeat split; try (eexists; split; vm_compute; reflexivity); vm_compute; reflexivity. Qed.
+
+(* the plain forms ARE evicted in the witness setting (so the witnesses above isolate the five defects) *)
+Lemma plain_forms_evicted :
+  store_has (evict_all (evicted_keys w_rq (w_rp (B [47;100;47;118]))) [(pg_METHOD_GET, w_target)]) (pg_METHOD_GET, w_target) = false /\
+  store_has (evict_all (evicted_keys w_rq (w_rp (B [104;116;116;112;58;47;47;104;58;56;47;100;47;118]))) [(pg_METHOD_GET, w_target)])
+            (pg_METHOD_GET, w_target) = false.
+Proof. split; vm_compute; reflexivity. Qed.
+
+(* ------------------------------------------------------------------ the spec agrees with the code on references in
+   normal form (nothing for remove_dot_segments / fragment stripping / case folding to do) *)
+Lemma pathchars_no_nul (l : bytes) : forallb pg_PathChars l = true -> no_nul l = true.
+Proof.
+  unfold no_nul, no_byte. induction l as [|c l IH]; cbn [forallb]; [reflexivity|]. intros H.
+  apply andb_true_iff in H as [H1 H2]. rewrite (IH H2), andb_true_r.
+  destruct (c =? 0) eqn:E0; [|reflexivity]. apply N.eqb_eq in E0; subst c. vm_compute in H1. discriminate.
+Qed.
+
+Lemma absolute_path_reference_in_normal_form (rq : request) (rp : reply) (s a p : bytes) (m : N) :
+  wf_request rq s a -> purges_others (rq_method rq) = true -> rp_status rp < 400 ->
+  (hd0 p =? SLASH) = false -> strip_fragment (SLASH :: p) = SLASH :: p -> remove_dot_segments (SLASH :: p) = SLASH :: p ->
+  forallb pg_PathChars (SLASH :: p) = true ->
+  rp_location rp = Some (SLASH :: p) \/ rp_content_location rp = Some (SLASH :: p) ->
+  In m (cacheable_ids pg_methods) ->
+  names_same_authority s a (uri_path (rq_url rq)) (SLASH :: p) (s ++ SEP ++ a ++ SLASH :: p) /\
+  In (m, s ++ SEP ++ a ++ SLASH :: p) (evicted_keys rq rp).
+Proof.
+  intros W Hp Hs Hp2 Hfrag Hdots Hchars Hhdr Hm. split.
+  - exists (SLASH :: p). split; [|reflexivity]. unfold rfc_resolve. rewrite Hfrag.
+    cbn [scheme_split]. replace (SLASH =? COLON) with false by reflexivity. rewrite N.eqb_refl. cbn [orb].
+    assert (H2 : starts2 (SLASH :: p) = None).
+    { destruct p as [|c p']; cbn [starts2]; [reflexivity|]. cbn [hd0] in Hp2. now rewrite Hp2, andb_false_r. }
+    rewrite H2, Hdots. reflexivity.
+  - rewrite <- (uri_encode_id pg_PathChars (SLASH :: p) Hchars).
+    apply location_absolute_path_evicted; try assumption. now apply pathchars_no_nul.
+Qed.
+
+Lemma scheme_split_app (s r : bytes) : forall acc, forallb scheme_byte s = true -> scheme_split (s ++ COLON :: r) acc = Some (rev acc ++ s, r).
+Proof.
+  induction s as [|c s IH]; intros acc H; cbn [app scheme_split].
+  - now rewrite N.eqb_refl, app_nil_r.
+  - cbn [forallb] in H. apply andb_true_iff in H as [H1 H2]. unfold scheme_byte in H1. apply negb_true_iff in H1.
+    apply orb_false_iff in H1 as [H1 H35]. apply orb_false_iff in H1 as [H1 H63]. apply orb_false_iff in H1 as [Hc Hsl].
+    rewrite Hc, Hsl, H63, H35. cbn [orb]. rewrite (IH (c :: acc) H2). cbn [rev]. now rewrite <- app_assoc.
+Qed.
+
+Lemma span_until_slash (a p : bytes) : no_byte SLASH a = true ->
+  span (fun c => negb (c =? SLASH)) (a ++ SLASH :: p) = (a, SLASH :: p).
+Proof.
+  induction a as [|c a IH]; cbn [app span no_byte forallb]; intros H.
+  - now rewrite N.eqb_refl.
+  - apply andb_true_iff in H as [H1 H2]. rewrite H1. unfold no_byte in IH. now rewrite (IH H2).
+Qed.
+
+Lemma absolute_url_in_normal_form (rq : request) (rp : reply) (s a p2 : bytes) (m : N) :
+  wf_request rq s a -> purges_others (rq_method rq) = true -> rp_status rp < 400 ->
+  s <> [] -> map lower s = s -> map lower a = a ->
+  strip_fragment (s ++ SEP ++ a ++ SLASH :: p2) = s ++ SEP ++ a ++ SLASH :: p2 ->
+  remove_dot_segments (SLASH :: p2) = SLASH :: p2 -> no_nul (s ++ SEP ++ a ++ SLASH :: p2) = true ->
+  rp_location rp = Some (s ++ SEP ++ a ++ SLASH :: p2) \/ rp_content_location rp = Some (s ++ SEP ++ a ++ SLASH :: p2) ->
+  In m (cacheable_ids pg_methods) ->
+  names_same_authority s a (uri_path (rq_url rq)) (s ++ SEP ++ a ++ SLASH :: p2) (s ++ SEP ++ a ++ SLASH :: p2) /\
+  In (m, s ++ SEP ++ a ++ SLASH :: p2) (evicted_keys rq rp).
+Proof.
+  intros W Hp Hs Hne Hls Hla Hfrag Hdots Hnul Hhdr Hm. split.
+  - exists (SLASH :: p2). split; [|reflexivity]. unfold rfc_resolve. rewrite Hfrag.
+    change (s ++ SEP ++ a ++ SLASH :: p2) with (s ++ COLON :: (SLASH :: SLASH :: a ++ SLASH :: p2)).
+    rewrite (scheme_split_app s _ [] (wf_scheme _ _ _ W)). cbn [rev app].
+    destruct s as [|c s']; [congruence|]. cbn [starts2]. rewrite N.eqb_refl. cbn [andb].
+    unfold split_authority. rewrite (span_until_slash a p2 (wf_auth _ _ _ W)). now rewrite Hls, Hla, Hdots.
+  - apply (location_same_authority_evicted rq rp s a s p2 m); try assumption. exact (wf_scheme _ _ _ W).
+Qed.
+
+Lemma normal_form_examples :
+  strip_fragment (B [47;100;47;118]) = B [47;100;47;118] /\ remove_dot_segments (B [47;100;47;118]) = B [47;100;47;118] /\
+  forallb pg_PathChars (B [47;100;47;118]) = true /\ map lower w_http = w_http /\ map lower w_auth = w_auth.
+Proof. repeat split; vm_compute; reflexivity. Qed.
